@@ -5,6 +5,7 @@ import (
 	"fmt"
 	"os"
 	"path/filepath"
+	"reflect"
 	"sort"
 	"strconv"
 	"strings"
@@ -24,7 +25,7 @@ import (
 
 // C20: name/number tables are mutually inverse and internally consistent (exhaustive).
 
-func c20Run(c *mon.Ctx) {
+func c20Pass(c *mon.Ctx) {
 	ev := c.Counter("evaluations")
 	nt := c.DistinctSet("nontrivial")
 	bad := func(sig, f string, a ...any) { c.Violation(sig, fmt.Sprintf(f, a...), fmt.Sprintf(f, a...)) }
@@ -621,10 +622,113 @@ func min(a, b int) int {
 	return b
 }
 
+// c20Snapshot deep-copies the exported tables (and the rule package's, through the export hook).
+func c20Snapshot() map[string]any {
+	arch := map[auparse.AuditArch]string{}
+	for k, v := range auparse.AuditArchNames {
+		arch[k] = v
+	}
+	sys := map[string]map[int]string{}
+	for a, t := range auparse.AuditSyscalls {
+		sys[a] = map[int]string{}
+		for n, name := range t {
+			sys[a][n] = name
+		}
+	}
+	e1 := map[int]string{}
+	for k, v := range auparse.AuditErrnoToName {
+		e1[k] = v
+	}
+	e2 := map[string]int{}
+	for k, v := range auparse.AuditErrnoToNum {
+		e2[k] = v
+	}
+	t := rule.VerifExportTables()
+	sort.Slice(t.Comparisons, func(i, j int) bool {
+		a, b := t.Comparisons[i], t.Comparisons[j]
+		return a.LHS+"/"+a.RHS < b.LHS+"/"+b.RHS
+	})
+	return map[string]any{"auparse.AuditArchNames": arch, "auparse.AuditSyscalls": sys, "auparse.AuditErrnoToName": e1, "auparse.AuditErrnoToNum": e2, "rule tables": t}
+}
+
+// c20Use makes the library look up what is NOT in its tables (unknown architectures, syscall numbers, record
+// types, errno values, names), the way a parser of hostile or future logs does all day.
+func c20Use(c *mon.Ctx) {
+	r := c.Rand(88)
+	arches := []uint32{0xdeadbeef, 0, 1, 0xffffffff, 0xc000003f, 0x4000003d, 0x80000000}
+	for i := 0; i < 200; i++ {
+		arches = append(arches, r.Uint32())
+	}
+	for _, a := range arches {
+		_ = auparse.AuditArch(a).String()
+		for _, sc := range []int{-1, 0, 59, 9999, 1 << 20} {
+			line := fmt.Sprintf("type=SYSCALL msg=audit(1500000000.100:%d): arch=%x syscall=%d success=no exit=-%d a0=0 a1=0 a2=0 a3=0 items=0 ppid=1 pid=2 auid=0 uid=0 gid=0 euid=0 suid=0 fsuid=0 egid=0 sgid=0 fsgid=0 tty=(none) ses=1 comm=\"x\" exe=\"/x\" key=(null)", a&0xffff, a, sc, 1000+int(a%5000))
+			if m, err := auparse.ParseLogLine(line); err == nil {
+				m.Data()
+				m.ToMapStr()
+				aucoalesce.CoalesceMessages([]*auparse.AuditMessage{m})
+			}
+			c.Add("lookups_of_unknown_values", 1)
+		}
+		// a rule that names the architecture by a number the tables do not know, decoded
+		if w, err := rule.Build(&rule.SyscallRule{Type: rule.AppendSyscallRuleType, List: "exit", Action: "always", Syscalls: []string{"1"}, Filters: []rule.FilterSpec{{Type: rule.ValueFilterType, LHS: "arch", Comparator: "=", RHS: strconv.FormatUint(uint64(a), 10)}}}); err == nil {
+			rule.ToCommandLine(w, true)
+			rule.ToCommandLine(w, false)
+		}
+	}
+	for _, n := range []string{"UNKNOWN[1234]", "unknown[77]", "NOPE", "", "UNKNOWN[70000]", "[5]"} {
+		auparse.GetAuditMessageType(n)
+		var t auparse.AuditMessageType
+		t.UnmarshalText([]byte(n))
+	}
+	for i := 0; i < 65536; i += 7 {
+		_ = auparse.AuditMessageType(i).String()
+		aucoalesce.GetAuditEventType(auparse.AuditMessageType(i))
+	}
+	for _, line := range []string{"-a always,exit -F arch=nosucharch -S open", "-a always,exit -S nosuchsyscall", "-a always,exit -F nosuchfield=1", "-a always,exit -F arch=b64 -S 99999", "-a always,exit -F uid=nosuchuser", "-a always,exit -C nosuch=uid", "-a always,exit -F filetype=nosuch"} {
+		if rr, err := flags.Parse(line); err == nil {
+			rule.Build(rr)
+		}
+	}
+}
+
+// c20Run: the exhaustive table checks on the cold process, then a workload of lookups that miss the tables,
+// then the same exhaustive checks again: the tables must be the same tables (no entry added, changed or
+// removed by use) and still mutually inverse.
+func c20Run(c *mon.Ctx) {
+	before := c20Snapshot()
+	c20Pass(c)
+	c20Use(c)
+	after := c20Snapshot()
+	names := make([]string, 0, len(before))
+	for k := range before {
+		names = append(names, k)
+	}
+	sort.Strings(names)
+	for _, k := range names {
+		if !reflect.DeepEqual(before[k], after[k]) {
+			what := ""
+			if k == "auparse.AuditArchNames" {
+				b, a := before[k].(map[auparse.AuditArch]string), after[k].(map[auparse.AuditArch]string)
+				for code, name := range a {
+					if b[code] != name {
+						what = fmt.Sprintf(" (e.g. %#x -> %q, before: %q)", uint32(code), name, b[code])
+						break
+					}
+				}
+			}
+			c.Violation("tables-changed-by-use", fmt.Sprintf("%s is not the same table after parsing / printing values that are not in it%s", k, what), k)
+		}
+	}
+	c.Add("table_snapshots_compared", int64(len(names)))
+	c20Pass(c)
+	c.Add("exhaustive_passes", 2)
+}
+
 func init() {
 	register(&mon.CheckSpec{
 		ID: "C20", Level: "exploration", Exhaustive: true,
-		Rule: "EXHAUSTIVE enumeration at run time of: all 65536 record type codes (name -> number -> name in three letter cases, text marshalling, unique names, repeated and concurrent categorisation); both errno maps in both directions (aliases resolve to one number; cross-checked with x/sys/unix); every architecture name <-> code (unique, String(), the rule package's reverse table, linux/audit.h spot table, and through Build/ToCommandLine with = and !=); every (arch, syscall) entry (a name maps to one number, the rule package's reverse table, and a rule '-F arch=A -S name' sets exactly that bit and round-trips); every rule field / operator / comparison table entry (verif export hook) against linux/audit.h in both directions; every entry of normalizations.yaml (read from /repo, loaded with the exported loader and walked independently as a YAML node tree): record types resolve and print back identically, syscalls occur in at least one arch table, nothing listed twice, every record type selects the same normalisation on repeated evaluation for every subset of its has_fields, and a record type with several conditional normalisations selects the one whose has_fields the record carries (none when it carries none). Compound events of every named first record type with different syscalls are coalesced one after the other and re-checked afterwards (the shared table entries must not be written). distinct_nontrivial = distinct named table entries visited.",
+		Rule: "EXHAUSTIVE enumeration at run time of: all 65536 record type codes (name -> number -> name in three letter cases, text marshalling, unique names, repeated and concurrent categorisation); both errno maps in both directions (aliases resolve to one number; cross-checked with x/sys/unix); every architecture name <-> code (unique, String(), the rule package's reverse table, linux/audit.h spot table, and through Build/ToCommandLine with = and !=); every (arch, syscall) entry (a name maps to one number, the rule package's reverse table, and a rule '-F arch=A -S name' sets exactly that bit and round-trips); every rule field / operator / comparison table entry (verif export hook) against linux/audit.h in both directions; every entry of normalizations.yaml (read from /repo, loaded with the exported loader and walked independently as a YAML node tree): record types resolve and print back identically, syscalls occur in at least one arch table, nothing listed twice, every record type selects the same normalisation on repeated evaluation for every subset of its has_fields, and a record type with several conditional normalisations selects the one whose has_fields the record carries (none when it carries none). Compound events of every named first record type with different syscalls are coalesced one after the other and re-checked afterwards (the shared table entries must not be written). The whole enumeration runs twice: on the cold process, and again after a workload of lookups that MISS the tables (unknown architectures, syscall numbers, record types, errno values and names through the parser, the coalescer and the rule encoder/decoder); deep copies of the exported tables taken before and after must be equal. distinct_nontrivial = distinct named table entries visited.",
 		Assumptions: []string{
 			"the tables are read through the exported maps/functions and the verif export hook at run time, so the check sees what the build contains",
 			"normalizations.yaml is read from the repository tree that the harness is built against (it is embedded from the same file)",
